@@ -341,6 +341,12 @@ func TestC06(t *testing.T) {
 			m.Violation("xof-constructor-rejects-valid-length:"+a.name, map[string]any{"L": h.l, "unknown": h.unknown, "keylen": len(h.key), "err": err.Error()})
 			return
 		}
+		// ---- constructor ownership probe (keyed only): an XOF whose caller
+		// key was scribbled after NewXOF (and after Reset) must produce what an
+		// XOF whose key buffer was left alone produces
+		if len(h.key) > 0 {
+			c06keyProbe(m, h, r)
+		}
 		// ---- write phase (any panic here escapes to Cases = violation)
 		msg := mon.Bytes(r, mon.Pick(r, []int{0, 1, a.bs - 1, a.bs, a.bs + 1, r.IntN(301)}))
 		cuts, _ := chunking(r, len(msg), a.bs)
@@ -478,7 +484,50 @@ func TestC06(t *testing.T) {
 	m.Gate("write_operands_scribbled", q(6000, 120000), "every Write goes through one reused buffer that is overwritten with 0xA5 right after Write returns")
 	m.Gate("keys_scribbled_after_constructor", q(3000, 60000), "caller's key slice overwritten after NewXOF returned (and again after Reset)")
 	m.Gate("retained_read_buffers_verified", q(100000, 2000000), "re-verification of the last 8 filled Read buffers after later Reads/Clones/Resets on the same and other XOFs")
+	m.Gate("constructor_key_ownership_probes", q(3000, 60000), "keyed NewXOF with the caller's key buffer scribbled after construction and after Reset vs. the same with the buffer untouched vs. the reference")
 	m.Gate("resets_checked", q(1200, 24000), "Reset, second message, output compared from position 0")
+}
+
+// c06keyProbe builds two XOFs from separate copies of the key, scribbles one
+// copy after construction and again after Reset, and compares the first bytes
+// of both outputs with the reference.
+func c06keyProbe(m *mon.M, h *c06hist, r *rand.Rand) {
+	a := h.a
+	msg := mon.Bytes(r, r.IntN(2*a.bs))
+	n := 96
+	want := a.ref.NewX(h.l, h.unknown, h.key, msg).Range(0, n)
+	run := func(hostile bool) (first, afterReset []byte, err error) {
+		key := cloneKey(h.key)
+		x, err := newXOF(a, h.l, h.unknown, key)
+		if err != nil {
+			return nil, nil, err
+		}
+		if hostile {
+			scribble(key)
+		}
+		c06write(m, x, msg)
+		first = make([]byte, len(want))
+		io.ReadFull(x, first)
+		x.Reset()
+		if hostile {
+			scribble(key)
+		}
+		c06write(m, x, msg)
+		afterReset = make([]byte, len(want))
+		io.ReadFull(x, afterReset)
+		return first, afterReset, nil
+	}
+	f1, r1, err := run(true)
+	f0, r0, err0 := run(false)
+	if err != nil || err0 != nil {
+		return // the main history reports constructor errors
+	}
+	m.Count("constructor_key_ownership_probes", 1)
+	if (!bytes.Equal(f1, want) || !bytes.Equal(r1, want)) && bytes.Equal(f0, want) && bytes.Equal(r0, want) {
+		m.Violation("constructor-retains-caller-key:"+a.name+".XOF", map[string]any{"alg": a.name, "declared_length": h.l, "unknown_length": h.unknown, "key": mon.FullHex(h.key), "msg": mon.FullHex(msg),
+			"want": mon.Hex(want), "key_scribbled_first_read": mon.Hex(f1), "key_scribbled_after_reset": mon.Hex(r1), "key_untouched_first_read": mon.Hex(f0)})
+		h.bad = true
+	}
 }
 
 // reset: Reset must return to a fresh XOF in write mode with the same L/key.
